@@ -149,7 +149,141 @@ def w_norm(case):
             'outcome': tol.rnd([val, m1], 8), 'violations': viol}
 
 
-WORKERS = {'density': w_density, 'normalisation': w_norm}
+def w_long(case):
+    """Long vectors with large / tiny magnitudes: the documented density is a sum of
+    per-observation terms, so it stays finite where a product of scales would not."""
+    model = case['model']
+    params = np.array(case['params'], dtype=float)
+    n = case['n']
+    base = np.array(case['base'], dtype=float)
+    obase = np.array(case['obase'], dtype=float)
+    ybar = case['mag'] * base[np.arange(n) % len(base)]
+    y = case['mag'] * obase[(np.arange(n) * 2 + 1) % len(obase)]
+    S = np.array(case['sens'], dtype=float)[
+        np.arange(n * case['p']) % len(case['sens'])].reshape(n, case['p']) \
+        * case['mag']
+    em = _chi_model(model)
+    exp_pw = ref.pointwise(model, params, ybar, y)
+    exp_tot = float(np.sum(exp_pw))
+    viol = []
+    got_tot = em.compute_log_likelihood(params, ybar, y)
+    got_pw = np.asarray(em.compute_pointwise_ll(params, ybar, y))
+    score, sens = em.compute_sensitivities(params, ybar, S, y)
+    sens = np.asarray(sens, dtype=float)
+    rel = 1e-9
+    if not tol.close(got_tot, exp_tot, rel=rel):
+        viol.append({'sub': 'total', 'message': 'compute_log_likelihood differs from '
+                     'the documented log-density on a long vector',
+                     'expected': exp_tot, 'observed': got_tot})
+    if got_pw.shape != (n,) or not tol.allclose(got_pw, exp_pw, rel=rel):
+        viol.append({'sub': 'pointwise', 'message': 'compute_pointwise_ll differs '
+                     'from the documented pointwise log-density on a long vector',
+                     'expected': exp_tot, 'observed': float(np.sum(got_pw))})
+    if not tol.close(score, exp_tot, rel=rel):
+        viol.append({'sub': 'S1score', 'message': 'score returned by '
+                     'compute_sensitivities differs from the documented log-density '
+                     'on a long vector', 'expected': exp_tot, 'observed': score})
+    p = case['p']
+
+    def f(theta):
+        yb = ybar + S @ theta[:p]
+        return np.sum(ref.pointwise(model, theta[p:], yb, y))
+    exp_sens = cstep.grad(f, np.concatenate((np.zeros(p), params)))
+    if sens.shape != exp_sens.shape or not tol.allclose(
+            sens, exp_sens, rel=1e-7, abs_=1e-7):
+        viol.append({'sub': 'S1grad', 'message': 'sensitivities are not the '
+                     'derivatives of the documented log-density on a long vector',
+                     'expected': exp_sens, 'observed': sens})
+    return {'transitions': 3, 'outcome': tol.rnd([got_tot, score, sens], 8),
+            'violations': viol}
+
+
+def w_reduced(case):
+    """A history of fix_parameters calls on a ReducedErrorModel, with the
+    log-likelihood, pointwise values and sensitivities evaluated after every call and
+    compared with the documented density at the substituted parameter vector."""
+    model = case['model']
+    ybar = np.array(case['ybar'], dtype=float)
+    y = np.array(case['y'], dtype=float)
+    p = case['p']
+    S = np.array(case['sens'], dtype=float).reshape(len(ybar), p)
+    full = np.array(case['params'], dtype=float)
+    em = chi.ReducedErrorModel(_chi_model(model))
+    names = list(em.get_parameter_names())
+    n_par = len(names)
+    fixed = {}
+    viol = []
+    n_tr = 0
+    obs = []
+    for step, op in enumerate(case['ops']):
+        d = {names[i]: v for i, v in op}
+        em.fix_parameters(d)
+        n_tr += 1
+        for i, v in op:
+            if v is None:
+                fixed.pop(i, None)
+            else:
+                fixed[i] = float(v)
+        free = [i for i in range(n_par) if i not in fixed]
+        theta_full = full.copy()
+        for i, v in fixed.items():
+            theta_full[i] = v
+        if em.n_parameters() != len(free) or \
+                list(em.get_parameter_names()) != [names[i] for i in free]:
+            viol.append({'sub': 'names', 'step': step, 'message': 'free parameter '
+                         'names/count of the reduced error model are not the '
+                         'unfixed ones in order',
+                         'expected': [names[i] for i in free],
+                         'observed': list(em.get_parameter_names())})
+            break
+        arg = full[free]
+        exp_pw = ref.pointwise(model, theta_full, ybar, y)
+        exp_tot = float(np.sum(exp_pw))
+        got_tot = em.compute_log_likelihood(arg, ybar, y)
+        got_pw = np.asarray(em.compute_pointwise_ll(arg, ybar, y))
+        score, sens = em.compute_sensitivities(arg, ybar, S, y)
+        sens = np.asarray(sens, dtype=float)
+        n_tr += 3
+        if not tol.close(got_tot, exp_tot) or not tol.close(score, exp_tot) \
+                or not tol.allclose(got_pw, exp_pw):
+            viol.append({'sub': 'value', 'step': step, 'message': 'reduced error '
+                         'model log-likelihood differs from the documented density '
+                         'at the substituted parameters',
+                         'expected': exp_tot, 'observed': [got_tot, score]})
+
+        def f(theta):
+            par = np.array(theta_full, dtype=complex)
+            par[free] = theta[p:]
+            return np.sum(ref.pointwise(model, par, ybar + S @ theta[:p], y))
+        exp_sens = cstep.grad(f, np.concatenate((np.zeros(p), arg)))
+        if sens.shape != exp_sens.shape or not tol.allclose(
+                sens, exp_sens, rel=1e-8, abs_=1e-9):
+            viol.append({'sub': 'grad', 'step': step, 'message': 'reduced error '
+                         'model sensitivities are not the derivatives with respect '
+                         'to (mechanistic, free error parameters) at the '
+                         'substituted parameters',
+                         'expected': exp_sens, 'observed': sens})
+        if free:
+            # a rejected value for a free parameter: -inf and one entry per
+            # mechanistic / free error parameter, as for the unfixed model
+            bad = arg.copy()
+            bad[0] = -abs(bad[0])
+            sb, gb = em.compute_sensitivities(bad, ybar, S, y)
+            n_tr += 1
+            if sb != -np.inf or np.asarray(gb).shape != (p + len(free),):
+                viol.append({'sub': 'rejected', 'step': step, 'message': 'reduced '
+                             'error model at a rejected free value does not return '
+                             '-inf with one sensitivity per mechanistic and free '
+                             'error parameter', 'expected': [-np.inf, p + len(free)],
+                             'observed': [sb, list(np.asarray(gb).shape)]})
+        obs.append([sorted(fixed.items()), got_tot, sens])
+        if viol:
+            break
+    return {'transitions': n_tr, 'outcome': tol.rnd(obs), 'violations': viol}
+
+
+WORKERS = {'density': w_density, 'normalisation': w_norm, 'long': w_long,
+           'reduced': w_reduced}
 
 
 def _tuples(alphabet, n):
@@ -205,6 +339,42 @@ def build(tier, seed):
                     {'model': model, 'params': list(params), 'ybar': ybar})
     if tier == 'quick':
         norm_cases = norm_cases[::2]
+    # long vectors x magnitudes
+    long_cases = []
+    lens = [40, 200] if tier == 'quick' else [40, 200, 400, 1000]
+    sens_alpha = vals.reals('c04.S.long', 7, -1.5, 1.5, seed)
+    for model in ref.MODELS:
+        for n in lens:
+            for mag in (1e-3, 1.0, 40.0, 800.0):
+                for params in itertools.product(*[a[:2] for a in scale[model]]):
+                    for p in (0, 2):
+                        long_cases.append({
+                            'model': model, 'n': n, 'mag': mag, 'p': p,
+                            'params': list(params), 'base': pos, 'obase': obs_pos,
+                            'sens': sens_alpha})
+    # ReducedErrorModel fix histories with evaluation after every call
+    red_cases = []
+    depth = 2 if tier == 'quick' else 3
+    for model in ref.MODELS:
+        n_par = ref.N_PARAMS[model]
+        choices = []
+        for i in range(n_par):
+            a = scale[model][i]
+            choices.append([('absent',), (i, None), (i, a[1]), (i, a[2])])
+        ops = []
+        for combo in itertools.product(*choices):
+            op = [list(c) for c in combo if c != ('absent',)]
+            if op:
+                ops.append(op)
+        n = 2
+        for d in range(1, depth + 1):
+            for hist in itertools.product(ops, repeat=d):
+                for p in (0, 2):
+                    red_cases.append({
+                        'model': model, 'ybar': pos[:n], 'y': obs_pos[:n],
+                        'params': [a[0] for a in scale[model]], 'p': p,
+                        'sens': vals.reals('c04.S.red', n * p, -2.0, 2.0, seed)
+                        if p else [], 'ops': [list(o) for o in hist]})
     return {
         'parts': [
             Part('density', cases, w_density,
@@ -212,14 +382,24 @@ def build(tier, seed):
                  '(incl. 0, negative) x sensitivity width vs documented density'),
             Part('normalisation', norm_cases, w_norm,
                  'adaptive quadrature of exp(pointwise ll) over the measurable range'),
+            Part('long', long_cases, w_long,
+                 'model x vector length x magnitude (1e-3 .. 800) x scales x '
+                 'sensitivity width vs the documented sum of per-observation terms'),
+            Part('reduced', red_cases, w_reduced,
+                 'every sequence (depth <= %d) of ReducedErrorModel.fix_parameters '
+                 'calls over {absent, None, v1, v2}^n_parameters, evaluated after '
+                 'every call' % depth),
         ],
         'bounds': {'n_obs_max': max_n, 'sens_width_max': max_p,
+                   'long_lengths': lens, 'long_magnitudes': [1e-3, 1.0, 40.0, 800.0],
+                   'reduced_history_depth': depth,
                    'scale_alphabet': scale, 'bad_scales': bad,
                    'outputs_pos': pos, 'outputs_mixed': mixed},
         'rule': 'complete product of the declared alphabets; a case is counted as '
                 'distinct-nontrivial once per distinct observed (total, pointwise, '
                 'score, sensitivities) tuple',
-        'min_outcomes': {'density': 200, 'normalisation': 4},
+        'min_outcomes': {'density': 200, 'normalisation': 4, 'long': 20,
+                         'reduced': 20},
         'assumptions': [
             'outputs for which the documented standard deviation would be '
             'non-positive (M, CM with negative outputs) are outside the documented '
